@@ -1,8 +1,10 @@
 package harness
 
 // C16 over the life of one PROCESS hosting several deployments (spec/SessionReplayHistory.tla):
-// deployments A, B1 (other URL and key), B2 (same URL, other key), B3 (same key, other URL) are
-// real middlewares built with samlsp.New that live in this test process.  A history presents
+// deployments A (a URL with a non-root path), B1 (other URL and key), B2 (same URL, other key), B3 (same
+// key, other URL) and A's siblings Sp, Sq, Ss, Sc (A's key, scheme and host; a URL that differs from A's
+// only in the path, the query, a trailing slash, the letter case of the host) are real middlewares built with
+// samlsp.New from the URL records of the model that live in this test process.  A history presents
 // session and tracking tokens minted by one deployment to the same or another deployment at clock
 // positions before the mint, inside the lifetime and beyond it.  Whether a presentation
 // authenticates is decided by (minting deployment, receiving deployment, clock position, token
@@ -12,6 +14,8 @@ import (
 	"encoding/json"
 	"fmt"
 	"math/rand"
+	"os"
+	"path/filepath"
 	"sort"
 	"strings"
 	"sync/atomic"
@@ -43,9 +47,20 @@ type c16HistFam struct {
 	K2 string `json:"k2"`
 }
 
+// c16HistDepl is one row of the model's table of deployments: Options.URL, key (k1 | k2) and the audience =
+// issuer the model's step Build (samlsp.New) gives the deployment's codecs.
+type c16HistDepl struct {
+	Url c16Url `json:"url"`
+	Key string `json:"key"`
+	Aud c16Url `json:"aud"`
+}
+
+// (Depls: in the RDEPL lines, one per family pair and group)
 type c16Hist struct {
-	Fam   c16HistFam    `json:"fam"`
-	Steps []c16HistStep `json:"steps"`
+	Fam   c16HistFam             `json:"fam"`
+	Grp   string                 `json:"grp"` // base: A and the B's | sib: A and its siblings
+	Depls map[string]c16HistDepl `json:"depls,omitempty"`
+	Steps []c16HistStep          `json:"steps"`
 }
 
 func (h *c16Hist) key() string {
@@ -56,32 +71,49 @@ func (h *c16Hist) key() string {
 	return fmt.Sprintf("C16:replay-history:%s+%s:%s", h.Fam.K1, h.Fam.K2, strings.Join(p, "|"))
 }
 
-// c16Tenants are the four deployments of the model for one pair of key families.
+// c16Tenants are the deployments of one group of the model for one pair of key families.
 type c16Tenants struct {
-	d    map[string]*c16Depl
-	urlB string
+	d     map[string]*c16Depl
+	aud   map[string]string // the model's audience = issuer per deployment, as a string
+	table map[string]c16HistDepl
+	pick  int
 }
 
-func c16NewTenants(f c16HistFam, urlB string) (*c16Tenants, error) {
-	t := &c16Tenants{d: map[string]*c16Depl{}, urlB: urlB}
-	for _, x := range []struct{ name, fam, which, root string }{
-		{"A", f.K1, "this", spRoot}, {"B1", f.K2, "other", urlB}, {"B2", f.K2, "other", spRoot}, {"B3", f.K1, "this", urlB}} {
-		d, err := c16NewDepl(c16Cfg{Spkey: x.fam, Life: 3600, Cookie: "default"}, x.which, x.root)
+// c16NewTenants builds every deployment of the model's table with samlsp.New: its key from the key class
+// and the family, its Options.URL from the URL record.
+func c16NewTenants(f c16HistFam, table map[string]c16HistDepl, pick int) (*c16Tenants, error) {
+	t := &c16Tenants{d: map[string]*c16Depl{}, aud: map[string]string{}, table: table, pick: pick}
+	if len(table) < 2 {
+		return nil, fmt.Errorf("table of %d deployments", len(table))
+	}
+	for name, row := range table {
+		fam, which := f.K1, "this"
+		switch row.Key {
+		case "k1":
+		case "k2":
+			fam, which = f.K2, "other"
+		default:
+			return nil, fmt.Errorf("deployment %s: key class %q", name, row.Key)
+		}
+		root, err := c16UrlConc(row.Url, pick)
 		if err != nil {
 			return nil, err
 		}
-		t.d[x.name] = d
+		if t.aud[name], err = c16UrlConc(row.Aud, pick); err != nil {
+			return nil, err
+		}
+		d, err := c16NewDepl(c16Cfg{Spkey: fam, Life: 3600, Cookie: "default", Url: row.Url}, which, root)
+		if err != nil {
+			return nil, err
+		}
+		t.d[name] = d
 	}
-	// the model's relations between the deployments must hold of the real ones
-	same := func(a, b string) (key, url bool) {
-		return t.d[a].kp == t.d[b].kp, t.d[a].root == t.d[b].root
-	}
-	for _, c := range []struct {
-		a, b     string
-		key, url bool
-	}{{"A", "B1", false, false}, {"A", "B2", false, true}, {"A", "B3", true, false}, {"B1", "B2", true, false}, {"B1", "B3", false, true}, {"B2", "B3", false, false}} {
-		if k, u := same(c.a, c.b); k != c.key || u != c.url {
-			return nil, fmt.Errorf("deployments %s and %s: same key %v, same URL %v; the model says %v, %v", c.a, c.b, k, u, c.key, c.url)
+	// the model's relations between the deployments must hold of the real ones (harness data only: keys and URL strings)
+	for a, ra := range table {
+		for b, rb := range table {
+			if k, u := t.d[a].kp == t.d[b].kp, t.d[a].root == t.d[b].root; k != (ra.Key == rb.Key) || u != (ra.Url == rb.Url) {
+				return nil, fmt.Errorf("deployments %s and %s: same key %v, same URL %v; the model says %v, %v", a, b, k, u, ra.Key == rb.Key, ra.Url == rb.Url)
+			}
 		}
 	}
 	return t, nil
@@ -91,6 +123,8 @@ type c16HistTok struct {
 	str, sub string
 	stmts    [][]c16ConcAttr
 	authn    []string
+	err      error  // the minting deployment's CreateSession / TrackRequest gave no token
+	drift    string // what the mint stamped differs from the model of the mint
 }
 
 type c16HistRun struct {
@@ -106,8 +140,9 @@ type c16HistRun struct {
 
 // mint creates, with the real code of the minting deployment, one token string per (deployment,
 // kind) the history uses.  Strings are unique to the history: state the process keeps about one
-// history's tokens cannot be confused with another's.
-func (r *c16HistRun) mint() error {
+// history's tokens cannot be confused with another's.  A mint that fails, or stamps another issuer / audience
+// than the model's step Build says, is behaviour of the code under test: recorded, reported as drift in step.
+func (r *c16HistRun) mint() {
 	r.toks = map[string]*c16HistTok{}
 	for _, s := range r.h.Steps {
 		id := s.By + "." + s.Kind
@@ -117,22 +152,36 @@ func (r *c16HistRun) mint() error {
 		d := r.ten.d[s.By]
 		tk := &c16HistTok{}
 		var err error
-		if s.Kind == "session" {
-			tk.sub = fmt.Sprintf("%s@%s-%s", c16SafeSubjects[r.rng.Intn(len(c16SafeSubjects))], strings.ToLower(s.By), r.uniq)
-			vals := c16Pick(r.rng, c16AttrValues, 2)
-			tk.stmts = [][]c16ConcAttr{{{Fn: "groups", Name: "urn:groups", Vals: []string{"admins-of-" + s.By, vals[0]}}, {Fn: "", Name: "tenant", Vals: []string{s.By}}},
-				{{Fn: "mail", Name: "urn:oid:0.9.2342.19200300.100.1.3", Vals: []string{vals[1]}}}}
-			tk.authn = []string{"_si-" + s.By + "-" + r.uniq}
-			tk.str, err = c16Mint(d, c16BuildAssertion(&tk.sub, true, tk.stmts, tk.authn))
-		} else {
-			tk.str, tk.sub, err = c16MintTracking(d, r.rng)
+		if p, msg := safely(func() {
+			err = r.mintOne(d, tk, s)
+		}); p {
+			err = fmt.Errorf("panic while minting: %s", msg)
 		}
-		if err != nil {
-			return fmt.Errorf("%s mints a %s token: %v", s.By, s.Kind, err)
+		tk.err = err
+		if err == nil {
+			if iss, aud, _, perr := c16PeekIdent(tk.str); perr != nil {
+				tk.drift = fmt.Sprintf("what %s minted is not header.claims.signature with JSON claims: %v", s.By, perr)
+			} else if want := r.ten.aud[s.By]; iss != want || aud != want {
+				tk.drift = fmt.Sprintf("%s token minted by %s (Options.URL %s) carries iss %q aud %q; the model of samlsp.New (Audience = Issuer = Options.URL.String()) says %q", s.Kind, s.By, d.root, iss, aud, want)
+			}
 		}
 		r.toks[id] = tk
 	}
-	return nil
+}
+
+func (r *c16HistRun) mintOne(d *c16Depl, tk *c16HistTok, s c16HistStep) error {
+	var err error
+	if s.Kind == "session" {
+		tk.sub = fmt.Sprintf("%s@%s-%s", c16SafeSubjects[r.rng.Intn(len(c16SafeSubjects))], strings.ToLower(s.By), r.uniq)
+		vals := c16Pick(r.rng, c16AttrValues, 2)
+		tk.stmts = [][]c16ConcAttr{{{Fn: "groups", Name: "urn:groups", Vals: []string{"admins-of-" + s.By, vals[0]}}, {Fn: "", Name: "tenant", Vals: []string{s.By}}},
+			{{Fn: "mail", Name: "urn:oid:0.9.2342.19200300.100.1.3", Vals: []string{vals[1]}}}}
+		tk.authn = []string{"_si-" + s.By + "-" + r.uniq}
+		tk.str, err = c16Mint(d, c16BuildAssertion(&tk.sub, true, tk.stmts, tk.authn))
+	} else {
+		tk.str, tk.sub, err = c16MintTracking(d, r.rng)
+	}
+	return err
 }
 
 func c16HistErrClass(st c16Step, s c16HistStep) string {
@@ -161,6 +210,17 @@ func (r *c16HistRun) step(rep *Report, n int, replay func() map[string]any) {
 	}
 	s := r.h.Steps[n]
 	d, tk := r.ten.d[s.To], r.toks[s.By+"."+s.Kind]
+	if tk.err != nil {
+		// no clause of the statement obliges CreateSession / TrackRequest to succeed: nothing to present, drift
+		r.dead = true
+		rep.Eval(s.Class, fmt.Sprintf("%s#%d", r.key, n+1))
+		rep.DriftCase(r.key+":mint", fmt.Sprintf("step %d: deployment %s minted no %s token to present", n+1, s.By, s.Kind), tk.err.Error())
+		return
+	}
+	if tk.drift != "" {
+		rep.DriftCase(r.key+":mint", "minted token differs from the model of the mint", tk.drift)
+		tk.drift = ""
+	}
 	o := c16Request(d, d.cookie+"="+tk.str, nil, d.m.RequireAccount)
 	trkAcc, trkPanic := c16Tracked(d, tk.sub, tk.str)
 	sessCls, trkCls := c16DecodeClasses(d, tk.str)
@@ -171,6 +231,9 @@ func (r *c16HistRun) step(rep *Report, n int, replay func() map[string]any) {
 		before = "after " + strings.Join(r.trace[:n], ", ")
 	}
 	what := fmt.Sprintf("step %d: the %s token minted by deployment %s, presented to deployment %s %+d s after the mint", n+1, s.Kind, s.By, s.To, s.At)
+	if s.By != s.To {
+		what += fmt.Sprintf(" (%s: Options.URL %s, key %s; %s: Options.URL %s, key %s)", s.By, r.ten.d[s.By].root, r.ten.table[s.By].Key, s.To, d.root, r.ten.table[s.To].Key)
+	}
 	switch {
 	case s.Class == "MustReject" && o.Ran:
 		r.dead = true
@@ -219,7 +282,7 @@ func (r *c16HistRun) step(rep *Report, n int, replay func() map[string]any) {
 }
 
 func (r *c16HistRun) replay(base time.Time, n int) map[string]any {
-	return map[string]any{"replay_history": true, "kind": "replay-history", "fam": r.h.Fam, "url_b": r.ten.urlB, "history": r.h.Steps,
+	return map[string]any{"replay_history": true, "kind": "replay-history", "fam": r.h.Fam, "grp": r.h.Grp, "depls": r.ten.table, "url_pick": r.ten.pick, "history": r.h.Steps,
 		"step": n + 1, "observed": append([]string{}, r.trace...), "base": base.Format(time.RFC3339Nano)}
 }
 
@@ -228,8 +291,10 @@ func c16HistUniq(i int, rng *rand.Rand) string { return fmt.Sprintf("h%d-%06x", 
 func TestC16ReplayHistory(t *testing.T) {
 	rep := NewReport("C16")
 	defer rep.Finish(t)
-	rep.Rule = "every history of spec/SessionReplayHistory.tla (MaxLen presentations, clock never backwards, at least one presentation the model accepts) is replayed in order on four real " +
-		"middlewares living in this process - A, B1 (other URL and key), B2 (same URL, other key), B3 (same key, other URL) - for every pair of key families of the configuration: " +
+	rep.Rule = "every history of spec/SessionReplayHistory.tla (MaxLen presentations, clock never backwards, at least one presentation the model accepts) is replayed in order on real " +
+		"middlewares living in this process - A (a URL with a non-root path), B1 (other URL and key), B2 (same URL, other key), B3 (same key, other URL) for every pair of key families of the " +
+		"configuration; and A with its siblings Sp, Sq, Ss, Sc (A's key, scheme and host, a URL that differs only in the path / the query / a trailing slash / the letter case of the host; " +
+		"every presentation to the minting deployment itself or between A and a sibling): " +
 		"session tokens from CreateSession and tracking tokens from TrackRequest, minted per history (unique strings), presented in the session cookie to RequireAccount(handler) " +
 		"(and to GetTrackedRequests) 30 s before the mint, 30 s after it and 60 s past the session lifetime.  Only a deployment's own session token inside its lifetime may authenticate, " +
 		"and always does, whatever the process accepted before; the application then sees the assertion's subject and attributes"
@@ -245,9 +310,22 @@ func TestC16ReplayHistory(t *testing.T) {
 	var clock atomic.Int64 // seconds after base; changed only between the lock-step rounds
 	nowFn := func() time.Time { return base.Add(time.Duration(clock.Load()) * time.Second) }
 	saml.TimeNow, jwt.TimeFunc = nowFn, nowFn
-	urlB := c16OtherRoots[seedRng.Intn(len(c16OtherRoots))]
+	pick := seedRng.Intn(c16UrlPicks)
 
-	tenants := map[c16HistFam]*c16Tenants{}
+	type tk struct {
+		f   c16HistFam
+		grp string
+	}
+	tenants := map[tk]*c16Tenants{}
+	tables := map[tk]map[string]c16HistDepl{}
+	for _, l := range loadLines(t, "replaydepls.ndjson") {
+		h := &c16Hist{}
+		if err := json.Unmarshal(l, h); err != nil || len(h.Depls) == 0 || tables[tk{h.Fam, h.Grp}] != nil {
+			rep.Break("bad or repeated table of deployments %s: %v", l, err)
+			return
+		}
+		tables[tk{h.Fam, h.Grp}] = h.Depls
+	}
 	var runs []*c16HistRun
 	seen := map[string]bool{}
 	for _, l := range lines {
@@ -256,15 +334,36 @@ func TestC16ReplayHistory(t *testing.T) {
 			rep.Break("bad history: %v", err)
 			return
 		}
-		if tenants[h.Fam] == nil {
-			ten, err := c16NewTenants(h.Fam, urlB)
+		g := tk{h.Fam, h.Grp}
+		h.Depls = tables[g]
+		if h.Depls == nil {
+			rep.Break("no table of deployments for group %q under %+v", h.Grp, h.Fam)
+			return
+		}
+		if tenants[g] == nil {
+			ten, err := c16NewTenants(h.Fam, h.Depls, pick)
 			if err != nil {
 				rep.Break("deployments: %v", err)
 				return
 			}
-			tenants[h.Fam] = ten
+			tenants[g] = ten
+			for n, d := range ten.d {
+				if d.note != "" {
+					rep.DriftCase("C16:defaults", "samlsp.New configures another default than the model of the configuration (deployment "+n+")", d.note)
+				}
+			}
 		}
-		r := &c16HistRun{h: h, key: h.key(), ten: tenants[h.Fam]}
+		for _, st := range h.Steps {
+			if _, ok := h.Depls[st.By]; !ok {
+				rep.Break("history names deployment %s, not in its table", st.By)
+				return
+			}
+			if _, ok := h.Depls[st.To]; !ok {
+				rep.Break("history names deployment %s, not in its table", st.To)
+				return
+			}
+		}
+		r := &c16HistRun{h: h, key: h.key(), ten: tenants[g]}
 		if seen[r.key] {
 			rep.Break("duplicate history %s", r.key)
 			return
@@ -298,18 +397,7 @@ func TestC16ReplayHistory(t *testing.T) {
 	for _, g := range order {
 		grp := groups[g]
 		clock.Store(0)
-		errs := make([]error, len(grp))
-		parallel(len(grp), func(i int) {
-			if p, msg := safely(func() { errs[i] = grp[i].mint() }); p {
-				errs[i] = fmt.Errorf("panic while minting: %s", msg)
-			}
-		})
-		for i, err := range errs {
-			if err != nil {
-				rep.Break("%s: %v", grp[i].key, err)
-				return
-			}
-		}
+		parallel(len(grp), func(i int) { grp[i].mint() })
 		for n := range grp[0].h.Steps {
 			clock.Store(grp[0].h.Steps[n].At)
 			parallel(len(grp), func(i int) {
@@ -332,7 +420,47 @@ func TestC16ReplayHistory(t *testing.T) {
 	rep.Extra["replay_histories"] = len(runs)
 	rep.Extra["replay_histories_conforming"] = replays
 	rep.Extra["clock_sequences"] = order
-	rep.Extra["deployment_b_url"] = urlB
+	urls := map[string]map[string]string{}
+	sibCross := map[string]int{}
+	for g, ten := range tenants {
+		if urls[g.grp] == nil {
+			urls[g.grp] = map[string]string{}
+			for n, d := range ten.d {
+				urls[g.grp][n] = d.root
+			}
+		}
+	}
+	// vacuity of the sibling dimension, counted from the histories' required classes: a fresh session token crosses
+	// between A and every sibling, in both directions
+	for _, r := range runs {
+		for _, s := range r.h.Steps {
+			if r.h.Grp == "sib" && s.Kind == "session" && s.P == "fresh" && s.By != s.To && s.Class == "MustReject" {
+				sibCross[s.By+">"+s.To]++
+			}
+		}
+	}
+	for _, sname := range []string{"Sp", "Sq", "Ss", "Sc"} {
+		if sibCross["A>"+sname] == 0 || sibCross[sname+">A"] == 0 {
+			rep.Break("vacuous: no fresh session token crosses between A and its sibling %s in both directions", sname)
+		}
+	}
+	rep.Extra["deployment_urls"] = urls
+	rep.Extra["fresh_session_tokens_crossing_between_a_and_a_sibling"] = sibCross
+	// the registered configurations have the deviation AudienceIsUrlRoot off; the phase before this one runs TLC with
+	// it on (spec/SessionReplayHistory_dev.cfg) and must have produced a counterexample to the cross-deployment invariant
+	refuted := false
+	cex, _ := filepath.Glob(filepath.Join(workDir(), "tlc_violation_*.txt"))
+	for _, f := range cex {
+		b, _ := os.ReadFile(f)
+		if strings.Contains(string(b), "Invariant OnlyOwnFreshSessionTokens is violated") {
+			refuted = true
+		}
+	}
+	if !refuted {
+		rep.Break("TLC did not refute OnlyOwnFreshSessionTokens under the deviation AudienceIsUrlRoot (no counterexample in the work directory): the URL dimension of the model is vacuous")
+	} else {
+		rep.Note("model self-test: with AudienceIsUrlRoot on (SessionReplayHistory_dev.cfg) TLC refutes OnlyOwnFreshSessionTokens")
+	}
 	rep.Assume("the clock is moved only between lock-step rounds; histories of one round run concurrently on the same four middlewares, each with token strings of its own")
 	if rep.Classes["MustAccept"] == 0 || rep.Classes["MustReject"] == 0 {
 		rep.Break("vacuous: no MustAccept or no MustReject presentation")
@@ -342,11 +470,13 @@ func TestC16ReplayHistory(t *testing.T) {
 func init() {
 	registerReplayFor("C16", "replay_history", func(t *testing.T, raw []byte) (bool, string) {
 		var r struct {
-			Key     string        `json:"key"`
-			Fam     c16HistFam    `json:"fam"`
-			URLB    string        `json:"url_b"`
-			History []c16HistStep `json:"history"`
-			Base    string        `json:"base"`
+			Key     string                 `json:"key"`
+			Fam     c16HistFam             `json:"fam"`
+			Grp     string                 `json:"grp"`
+			Depls   map[string]c16HistDepl `json:"depls"`
+			Pick    int                    `json:"url_pick"`
+			History []c16HistStep          `json:"history"`
+			Base    string                 `json:"base"`
 		}
 		if err := json.Unmarshal(raw, &r); err != nil {
 			t.Fatal(err)
@@ -360,16 +490,14 @@ func init() {
 		var clock int64
 		nowFn := func() time.Time { return base.Add(time.Duration(clock) * time.Second) }
 		saml.TimeNow, jwt.TimeFunc = nowFn, nowFn
-		ten, err := c16NewTenants(r.Fam, r.URLB)
+		ten, err := c16NewTenants(r.Fam, r.Depls, r.Pick)
 		if err != nil {
 			t.Fatal(err)
 		}
 		rep := NewReport("C16")
 		t.Setenv("VERIF_REPLAYS", t.TempDir())
-		run := &c16HistRun{h: &c16Hist{Fam: r.Fam, Steps: r.History}, key: r.Key, ten: ten, rng: newRand(r.Key), uniq: "replay"}
-		if err := run.mint(); err != nil {
-			t.Fatal(err)
-		}
+		run := &c16HistRun{h: &c16Hist{Fam: r.Fam, Grp: r.Grp, Depls: r.Depls, Steps: r.History}, key: r.Key, ten: ten, rng: newRand(r.Key), uniq: "replay"}
+		run.mint()
 		for n := range r.History {
 			clock = r.History[n].At
 			run.step(rep, n, func() map[string]any { return nil })
